@@ -1271,3 +1271,36 @@ def no_live_view_in_mutating_loop(ck, rels, rule='ORD-snapshot'):
                                   key='{}|{}|{}.{}|{}'.format(rule, rel, cname, m.name, x.attr))
     ck.ob(rule, rels[0] if rels else '-', True, 'loops that write into an attribute of self while a property derived from it exists: {} examined, none reads the property inside'.format(n),
           key=rule + '|scan|' + ','.join(rels))
+
+
+# ----------------------------------------------------------------------------------------------------------------------
+def no_shared_object_filled_per_iteration(ck, rels, rule='ALIAS-per-iteration'):
+    """`node = template` inside a loop, followed by `node.update(..)` / `node[k] = v` in the same loop, with `template` built *outside* the loop: every
+    iteration writes into the one shared object, so what one iteration put there leaks into the next (a per-iteration object needs a copy)."""
+    n = 0
+    for rel in rels:
+        module = ck.index.mod(rel)
+        for qual, fn in module.functions.items():
+            for loop in [l for l in walk_local(fn) if isinstance(l, (ast.For, ast.While))]:
+                inside = {id(x) for x in ast.walk(loop)}
+                bound_in_loop = {t.id for x in ast.walk(loop) if isinstance(x, (ast.Assign, ast.AugAssign, ast.For, ast.With, ast.comprehension))
+                                 for t in ast.walk(x.targets[0] if isinstance(x, ast.Assign) else x.target if hasattr(x, 'target') else ast.Pass())
+                                 if isinstance(t, ast.Name) and isinstance(t.ctx, ast.Store)}
+                for st in [s for s in loop.body if isinstance(s, ast.Assign)]:
+                    if not (len(st.targets) == 1 and isinstance(st.targets[0], ast.Name) and isinstance(st.value, ast.Name)):
+                        continue
+                    alias, src = st.targets[0].id, st.value.id
+                    if src in bound_in_loop or src == alias:
+                        continue
+                    d = single_def(fn, src)
+                    if d is None or id(d) in inside or not _is_container(d) and not isinstance(d, (ast.DictComp, ast.ListComp, ast.SetComp)):
+                        continue
+                    n += 1
+                    writes = [x for x in ast.walk(loop) if
+                              (isinstance(x, ast.Call) and isinstance(x.func, ast.Attribute) and isinstance(x.func.value, ast.Name) and x.func.value.id == alias and
+                               x.func.attr in ('update', 'append', 'add', 'extend', 'setdefault', 'pop', 'clear', 'insert')) or
+                              (isinstance(x, ast.Subscript) and isinstance(x.ctx, (ast.Store, ast.Del)) and isinstance(x.value, ast.Name) and x.value.id == alias)]
+                    ck.ob(rule, module.loc(st), not writes, '{}: `{} = {}` in a loop names the one object built before the loop; the loop then writes into it ({}): every iteration '
+                          'sees what the previous ones left'.format(qual, alias, src, u(writes[0])[:50] if writes else 'no write'),
+                          key='{}|{}|{}|{}'.format(rule, rel, qual, alias))
+    ck.ob(rule, rels[0] if rels else '-', True, 'per-iteration names for a container built outside the loop: {} examined'.format(n), key=rule + '|scan|' + ','.join(rels))
